@@ -448,3 +448,30 @@ Section ZeroDRun.
     apply IH; [apply step0_inv; assumption|assumption].
   Qed.
 End ZeroDRun.
+
+(* ---- C02: the solidification update is NOT conservative.  With insulated boundaries (K = 0, no evaporation) and no latent
+   heat at all (Dh = 0, unit heat capacity), a field with a conductivity jump changes its total heat content in one step.
+   (The cooling step conserves exactly: SnProofs.cool_step_energy_exact.) ------------------------------------------------ *)
+Definition Pnc : @p1d R := MkP1 1 1 0  1 1  1 1 1 0  2 1  0 1 1 1 1  1 1 1  100 50 1.
+Theorem solid_step_not_conservative :
+  let T := [0; 1; 3] in let W := [0; 1; 0] in
+  q_K Pnc = 0 /\ (forall w, cp_of Rops Pnc w = 1) /\ (forall b w, BETA_of Rops Pnc b w = 1)
+  /\ lsum (fst (solid_step Rops Pnc T W 0 0)) - lsum T = 3 / 4.
+Proof.
+  cbv zeta. split; [reflexivity|]. split; [|split].
+  - intros w. unfold cp_of, Pnc. cbn [q_cps q_sf q_cpi q_cpw nadd nsub nmul nofZ Rops]. ring.
+  - intros b w. unfold BETA_of, Pnc. cbn [q_Teql q_Dh q_kf q_ms q_Ms q_rho q_V q_Tm nltb nadd nsub nmul ndiv nofZ Rops].
+    destruct (Rltb b 50); [|reflexivity]. unfold Rdiv. ring.
+  - cbv [solid_step fst lsum Pnc interior2 solid_point lastd last2 lbo last app map cp_of lam_of BETA_of ice_of
+         q_dz q_dt q_K q_lam0 q_alpha0 q_cps q_cpi q_cpw q_sf q_lami q_lamw q_Dh q_kf q_Ms q_rho q_V q_mass q_mw q_ms q_Tm q_Teql q_cp0
+         nadd nsub nmul ndiv nltb nofZ Rops].
+    repeat match goal with |- context [Rltb ?a ?b] => destruct (Rltb a b) end; lra.
+Qed.
+Lemma solid_step_exact_balance_refuted :
+  exists (P : @p1d R) (T W : list R),
+  q_K P = 0 /\ (forall w, cp_of Rops P w = 1) /\ (forall b w, BETA_of Rops P b w = 1)
+  /\ lsum (fst (solid_step Rops P T W 0 0)) - lsum T <> 0.
+Proof.
+  exists Pnc, [0; 1; 3], [0; 1; 0]. destruct solid_step_not_conservative as (H1 & H2 & H3 & H4).
+  repeat split; try assumption. rewrite H4. lra.
+Qed.
